@@ -20,6 +20,7 @@ import (
 	"sort"
 	"strings"
 
+	"cuelang.org/go/cue/cuecontext"
 	"github.com/grafana/cog/verifapi"
 )
 
@@ -27,6 +28,7 @@ func init() {
 	commands["c16-replay"] = c16Replay
 	commands["builders-selftest"] = buildersSelftest
 	commands["c16-pipeline"] = c16Pipeline
+	commands["c16-loaded"] = c16Loaded
 }
 
 type case16 struct {
@@ -114,6 +116,11 @@ func fieldKind(S []any, home string, f J) string {
 	case "constref":
 		base = "constant_ref"
 	}
+	// constants other than non-empty strings: the scalar kind, the Go type the loaders hold the value in when it is
+	// not the kind's own (JSON Schema: float64 holding int64; CUE: uint8 holding int64; YAML: int32 holding int), falsy values
+	if c := constantOf(S, t); c != nil {
+		flags = append(flags, constantFlags(c)...)
+	}
 	if jbool(t["nullable"]) {
 		flags = append(flags, "nullable")
 	}
@@ -128,6 +135,44 @@ func fieldKind(S []any, home string, f J) string {
 		return base + "+" + strings.Join(flags, "+")
 	}
 	return base
+}
+
+// constantOf: the constant a field type fixes (inline or through references), nil if none.
+func constantOf(S []any, t J) J {
+	r := t
+	if jstr(t["k"]) == "ref" {
+		r = resolveJ(S, t, 8)
+	}
+	if jstr(r["k"]) == "scalar" && !isNilV(r["val"]) {
+		return r
+	}
+	return nil
+}
+
+// goTypeOfKind: the Go type ScalarType.AcceptsValue expects for a scalar kind.
+func goTypeOfKind(sk string) string {
+	switch sk {
+	case "string", "bool", "float32", "float64", "uint8", "uint16", "uint32", "uint64", "int8", "int16", "int32", "int64":
+		return sk
+	}
+	return ""
+}
+
+func constantFlags(c J) []string {
+	sk, v := jstr(c["sk"]), jmap(c["val"])
+	var out []string
+	if sk != "string" {
+		if want := goTypeOfKind(sk); want != "" && jstr(v["t"]) != want {
+			out = append(out, sk+"-held-as-"+jstr(v["t"]))
+		} else {
+			out = append(out, sk)
+		}
+	}
+	switch jstr(v["s"]) {
+	case "", "0", "false":
+		out = append(out, "falsy")
+	}
+	return out
 }
 
 func objectKind(S []any, pkg, name string) string {
@@ -202,6 +247,27 @@ func judge16(c case16, real []any) []c16Failure {
 		got[k] = jmap(b)
 		if _, ok := want[k]; !ok {
 			add("BuilderSet", "extra:"+objectKind(c.S, jstr(jmap(b)["pkg"]), jstr(jmap(jmap(b)["for"])["name"])), J{"builder": k})
+		}
+	}
+	// one builder per object, an object being identified by its own reference: two builders (under different keys)
+	// built for the same object are one too many, whatever package they sit in
+	byObject := map[string][]string{}
+	for _, b := range real {
+		f := jmap(jmap(b)["for"])
+		id := jstr(f["selfpkg"]) + "." + jstr(f["selfname"])
+		seen := false
+		for _, k := range byObject[id] {
+			seen = seen || k == key(b)
+		}
+		if !seen {
+			byObject[id] = append(byObject[id], key(b))
+		}
+	}
+	for _, b := range real {
+		f := jmap(jmap(b)["for"])
+		id := jstr(f["selfpkg"]) + "." + jstr(f["selfname"])
+		if ks := byObject[id]; len(ks) > 1 {
+			add("BuilderSet", "duplicate-object:"+objectKind(c.S, jstr(f["selfpkg"]), jstr(f["selfname"])), J{"builder": key(b), "object": id, "builders": ks})
 		}
 	}
 	for k, b := range want {
@@ -449,7 +515,7 @@ func c16Replay(args []string) int {
 				realN = c.B
 			}
 			fails := judge16(c, realN)
-			if given {
+			if variant, _ := c.Case["variant"].(string); given && !strings.HasPrefix(variant, "loaded:") {
 				// the builders came out of the real pipeline: name the site accordingly
 				for i := range fails {
 					fails[i].sig = strings.Replace(fails[i].sig, "C16/FromAST/", "C16/ContextForLanguage/", 1)
@@ -645,7 +711,9 @@ func c16Pipeline(args []string) int {
 			}
 			bs := normJSON(projBuilders(ctx.Builders))
 			stripNilChecks(bs)
-			rec, _ := json.Marshal(J{"case": J{"fields": []any{}, "variant": "pipeline:" + c.Lang + ":" + strings.Join(names, "+")},
+			// the case carries its input (what went INTO the pipeline), so that a stored violation can be replayed on the real pipeline
+			rec, _ := json.Marshal(J{"case": J{"fields": []any{}, "variant": "pipeline:" + c.Lang + ":" + strings.Join(names, "+"),
+				"input": J{"S": c.S, "passes": c.Passes, "lang": c.Lang}},
 				"S": normJSON(projSchemas(ctx.Schemas)), "B": bs})
 			w.Write(rec)
 			w.WriteByte('\n')
@@ -656,5 +724,112 @@ func c16Pipeline(args []string) int {
 		}
 	}
 	fmt.Printf("{\"cases\": %d, \"written\": %d, \"rejected\": %d, \"observations\": %s}\n", n, written, rejected, canonJ(other))
+	return 0
+}
+
+// Schemas as the real loaders produce them: constants keep the Go type the loader gave their value, which is not always
+// the scalar kind's own (an integral JSON Schema "number" is an int64 in a float64 scalar; CUE `uint8 & 3` an int64 in a
+// uint8 scalar).  The universes of BuildersMC / BuildersDeepMC state these representations; this route binds them to the
+// loaders: every field below refers to a constant, or is one, and must be fixed by the constructor.
+const c16LoadedJSONSchema = `{
+  "$schema": "http://json-schema.org/draft-07/schema#",
+  "$ref": "#/definitions/Toggle",
+  "definitions": {
+    "Kind":    {"type": "string", "const": "toggle"},
+    "Version": {"type": "number", "const": 2},
+    "Weight":  {"type": "number", "const": 0.5},
+    "Count":   {"type": "integer", "const": 7},
+    "Zero":    {"type": "integer", "const": 0},
+    "Off":     {"type": "boolean", "const": false},
+    "VersionAlias": {"$ref": "#/definitions/Version"},
+    "Toggle": {
+      "type": "object",
+      "required": ["kind", "version", "weight", "count", "zero", "off", "versionAgain", "name", "level"],
+      "properties": {
+        "name":    {"type": "string"},
+        "level":   {"type": "number", "const": 3},
+        "kind":    {"$ref": "#/definitions/Kind"},
+        "version": {"$ref": "#/definitions/Version"},
+        "weight":  {"$ref": "#/definitions/Weight"},
+        "count":   {"$ref": "#/definitions/Count"},
+        "zero":    {"$ref": "#/definitions/Zero"},
+        "off":     {"$ref": "#/definitions/Off"},
+        "versionAgain": {"$ref": "#/definitions/VersionAlias"},
+        "maybe":   {"$ref": "#/definitions/Version"}
+      }
+    }
+  }
+}`
+
+const c16LoadedCue = `
+Kind: "toggle"
+Retries: uint8 & 3
+Ratio: float32 & 1.5
+Count: 7
+Off: false
+Toggle: {
+	name: string
+	level: uint8 & 1
+	kind: Kind
+	retries: Retries
+	ratio: Ratio
+	count: Count
+	off: Off
+	maybe?: Retries
+}
+`
+
+// c16Loaded: the two texts through the real loaders, then the real FromAST; writes {case, S, B} records (as c16-pipeline).
+func c16Loaded(args []string) int {
+	fs := flag.NewFlagSet("c16-loaded", flag.ExitOnError)
+	out := fs.String("out", "", "ndjson of {case, S, B}")
+	_ = fs.Parse(args)
+	of, err := os.Create(*out)
+	if err != nil {
+		fmt.Fprintln(os.Stderr, err)
+		return 2
+	}
+	defer of.Close()
+	w := bufio.NewWriter(of)
+	defer w.Flush()
+	loaders := []struct {
+		name string
+		load func() (*verifapi.Schema, error)
+	}{
+		{"jsonschema", func() (*verifapi.Schema, error) {
+			return verifapi.JSONSchemaGenerateAST(strings.NewReader(c16LoadedJSONSchema), verifapi.JSONSchemaParserConfig{Package: "flags"})
+		}},
+		{"cue", func() (*verifapi.Schema, error) {
+			v := cuecontext.New().CompileString(c16LoadedCue)
+			if v.Err() != nil {
+				return nil, v.Err()
+			}
+			return verifapi.CueGenerateAST(v, verifapi.CueParserConfig{Package: "flags"})
+		}},
+	}
+	written := 0
+	failed := map[string]string{}
+	for _, l := range loaders {
+		func() {
+			defer func() {
+				if r := recover(); r != nil {
+					failed[l.name] = fmt.Sprint(r)
+				}
+			}()
+			schema, err := l.load()
+			if err != nil {
+				failed[l.name] = err.Error()
+				return
+			}
+			schemas := verifapi.Schemas{schema}
+			real := (&verifapi.BuilderGenerator{}).FromAST(schemas)
+			rec, _ := json.Marshal(J{"case": J{"fields": []any{}, "variant": "loaded:" + l.name},
+				"S": normJSON(projSchemas(schemas)), "B": normJSON(projBuilders(real))})
+			w.Write(rec)
+			w.WriteByte('\n')
+			written++
+		}()
+	}
+	fmt.Printf("{\"written\": %d, \"failed\": %s}\n", written, canonJ(failed))
 	return 0
 }
